@@ -160,7 +160,7 @@ def letter_name(lt):
 # ------------------------------------------------------------------ roots
 
 REGIMES = {"disl": 4, "yield": 6, "minvisc": 0, "diff": 1, "maxvisc": 7}
-TEXTURES = ["random", "cluster", "girdle", "single", "aligned", "aligned_i64"]
+TEXTURES = ["random", "cluster", "girdle", "single", "aligned", "aligned_i64", "random_fortran", "random_tview"]
 VOLS = ["uniform", "geometric", "onehot_i64"]
 NGRAINS = [5, 2, 3, 8, 1]
 PRM = {  # name -> overrides (default first)
@@ -249,7 +249,8 @@ def build_mineral(key, A=None, f=None, regime=None):
         n_grains=n,
         fractions_init=np.array(f).copy() if np.asarray(f).dtype.kind == "i" else np.array(f, float).copy(),
         # integer-typed textures are handed over as they are (legal ndarrays)
-        orientations_init=np.array(A).copy() if np.asarray(A).dtype.kind == "i" else np.array(A, float).copy(),
+        # and so are non-C-contiguous ones (Fortran order, transposed views): same numbers
+        orientations_init=A if (isinstance(A, np.ndarray) and not A.flags.c_contiguous) else (np.array(A).copy() if np.asarray(A).dtype.kind == "i" else np.array(A, float).copy()),
     )
 
 
